@@ -2,6 +2,8 @@ package main
 
 import (
 	"fmt"
+	"sort"
+	"strings"
 	"go/ast"
 	goprinter "go/printer"
 	"io"
@@ -61,7 +63,88 @@ func extraLean(repo string) []string {
 	return out
 }
 
-// structuralFacts: T3 facts; filled in as the properties need them.
+// structuralFacts: T3 facts.
 func structuralFacts(repo string) map[string]interface{} {
-	return map[string]interface{}{}
+	return map[string]interface{}{
+		"cachekv_locking": cachekvLocking(repo),
+	}
+}
+
+// cachekvLocking classifies every method of cachekv.Store: "locked" (body starts with
+// mtx.Lock(); defer mtx.Unlock()), "delegates:<m>" (touches no state itself, calls method m of
+// the same store), "internal" (unexported, touches state, only reachable from locked methods is
+// checked by listing its callers), or "UNLOCKED-touches-state".
+func cachekvLocking(repo string) map[string]string {
+	res := map[string]string{}
+	state := map[string]bool{"cache": true, "unsortedCache": true, "sortedCache": true}
+	callers := map[string][]string{}
+	var decls []*ast.FuncDecl
+	for _, f := range load(repo, "store/cachekv") {
+		for _, d := range f.Decls {
+			if fd, ok := d.(*ast.FuncDecl); ok && fd.Recv != nil && len(fd.Recv.List) == 1 && fd.Body != nil {
+				if se, ok := fd.Recv.List[0].Type.(*ast.StarExpr); ok {
+					if id, ok := se.X.(*ast.Ident); ok && id.Name == "Store" {
+						decls = append(decls, fd)
+					}
+				}
+			}
+		}
+	}
+	for _, fd := range decls {
+		recv := ""
+		if len(fd.Recv.List[0].Names) > 0 {
+			recv = fd.Recv.List[0].Names[0].Name
+		}
+		touches := false
+		var calls []string
+		ast.Inspect(fd.Body, func(n ast.Node) bool {
+			if se, ok := n.(*ast.SelectorExpr); ok {
+				if id, ok := se.X.(*ast.Ident); ok && id.Name == recv {
+					if state[se.Sel.Name] {
+						touches = true
+					}
+				}
+			}
+			if ce, ok := n.(*ast.CallExpr); ok {
+				if se, ok := ce.Fun.(*ast.SelectorExpr); ok {
+					if id, ok := se.X.(*ast.Ident); ok && id.Name == recv {
+						calls = append(calls, se.Sel.Name)
+						callers[se.Sel.Name] = append(callers[se.Sel.Name], fd.Name.Name)
+					}
+				}
+			}
+			return true
+		})
+		locked := false
+		if len(fd.Body.List) >= 2 {
+			a, b := src2(fd.Body.List[0]), src2(fd.Body.List[1])
+			locked = a == recv+".mtx.Lock()" && b == "defer "+recv+".mtx.Unlock()"
+		}
+		switch {
+		case locked:
+			res[fd.Name.Name] = "locked"
+		case !touches && len(calls) > 0:
+			res[fd.Name.Name] = "delegates:" + calls[0]
+		case !touches:
+			res[fd.Name.Name] = "no-state"
+		case !ast.IsExported(fd.Name.Name):
+			res[fd.Name.Name] = "internal"
+		default:
+			res[fd.Name.Name] = "UNLOCKED-touches-state"
+		}
+	}
+	for name, kind := range res {
+		if kind == "internal" {
+			cs := callers[name]
+			sort.Strings(cs)
+			res[name] = "internal-called-from:" + strings.Join(cs, ",")
+		}
+	}
+	return res
+}
+
+func src2(n ast.Node) string {
+	var sb strings.Builder
+	goprinter.Fprint(&sb, fset, n)
+	return sb.String()
 }
